@@ -137,10 +137,7 @@ def run(ctx):
             ctx.disagreements += len(diffs)
             ctx.broke('correspondence', 'translator (source text) vs imported module', diffs[:12])
         else:
-            try:
-                drv = Driver(ctx, info, rt)
-            except RuntimeError as e:
-                ctx.broke('correspondence', 'driver', str(e)[-1500:])
+            drv = Driver(ctx, info, rt)
     if drv is not None:
         k_table(ctx, drv, E)
         k_strings(ctx, drv)
@@ -163,6 +160,11 @@ def run(ctx):
         k_eq_rows(ctx, drv, species)
         k_constructed(ctx, drv, E, Line, els, isos)
 
+    if drv is not None:
+        try:
+            drv.flush()          # one invocation of the native driver for all streams
+        except RuntimeError as e:
+            ctx.broke('correspondence', 'native driver', str(e)[-1500:])
     ctx.exhaustive = True
     ctx.log('evaluations %d, distinct %d, compared with the model %d, failing inputs %d' % (
         ctx.evaluations, len(ctx.distinct), ctx.traces, fail.n))
@@ -184,13 +186,26 @@ class Driver:
                 self.id[id(o)] = '%s%d' % (pre, i)
         self.n_el = len(info['elements'])
         self.n_iso = len(info['isotopes'])
-        out = self.run(['count'])
+        self.jobs = []
+        self.add(['count'], self._count)
+
+    def _count(self, out):
         n = out[0].split()
         if [int(n[0]), int(n[1])] != [self.n_el, self.n_iso]:
             raise RuntimeError('driver was built from a different table: %s' % out[0])
 
-    def run(self, lines):
-        return self.ctx.driver(lines)
+    def add(self, lines, handler):
+        """queue protocol lines; `handler(outputs)` runs after the single driver invocation in flush()"""
+        self.jobs.append((list(lines), handler))
+
+    def flush(self):
+        lines = [l for job in self.jobs for l in job[0]]
+        outs = self.ctx.driver(lines)
+        k = 0
+        for ls, h in self.jobs:
+            h(outs[k:k + len(ls)])
+            k += len(ls)
+        self.jobs = []
 
     def spec(self, o):
         """species token: registry id, or a constructed object"""
@@ -205,38 +220,40 @@ class Driver:
 def k_table(ctx, drv, E):
     """the table and the indices inside the compiled driver vs the imported module"""
     lines = ['el %d' % i for i in range(drv.n_el)] + ['iso %d' % j for j in range(drv.n_iso)] + ['eidx', 'iidx']
-    outs = drv.run(lines)
-    bad = []
-    for i in range(drv.n_el):
-        o = drv.obj['E%d' % i]
-        n, d = float(o.atomic_weight).as_integer_ratio()
-        want = '%d %d %d %d %d' % (code(o.name), code(o.symbol), o.atomic_number, n, d)
-        ctx.traces += 1
-        if outs[i] != want:
-            bad.append(('E%d' % i, o.name, outs[i], want))
-    for j in range(drv.n_iso):
-        o = drv.obj['I%d' % j]
-        n, d = float(o.atomic_weight).as_integer_ratio()
-        want = '%d %d %d %d %d %d %s %d' % (code(o.name), code(o.symbol), o.atomic_number, n, d, o.mass_number,
-                                            drv.id.get(id(o.element), 'E?%d' % code(o.element.name)), code(o.element.name))
-        ctx.traces += 1
-        if outs[drv.n_el + j] != want:
-            bad.append(('I%d' % j, o.name, outs[drv.n_el + j], want))
-    for line, real, nm in ((outs[-2], E._element_index, 'element'), (outs[-1], E._isotope_index, 'isotope')):
-        model = {}
-        for tok in line.split():          # newest first: the first occurrence of a key is its final binding
-            k, v = tok.split(':')
-            model.setdefault(T.decode(k), v)
-        want = {k: drv.id.get(id(v), '?' + getattr(v, 'name', '?')) for k, v in real.items()}
-        ctx.traces += len(want)
-        ctx.count('index-keys-' + nm, len(want))
-        for k in sorted(set(model) | set(want)):
-            ctx.case(key=('index', nm, k))
-            if model.get(k) != want.get(k):
-                bad.append(('_%s_index[%r]' % (nm, k), '', model.get(k), want.get(k)))
-    if bad:
-        ctx.disagreements += len(bad)
-        ctx.broke('correspondence', 'generated table / modelled index vs imported module', bad[:10])
+
+    def _done(outs):
+        bad = []
+        for i in range(drv.n_el):
+            o = drv.obj['E%d' % i]
+            n, d = float(o.atomic_weight).as_integer_ratio()
+            want = '%d %d %d %d %d' % (code(o.name), code(o.symbol), o.atomic_number, n, d)
+            ctx.traces += 1
+            if outs[i] != want:
+                bad.append(('E%d' % i, o.name, outs[i], want))
+        for j in range(drv.n_iso):
+            o = drv.obj['I%d' % j]
+            n, d = float(o.atomic_weight).as_integer_ratio()
+            want = '%d %d %d %d %d %d %s %d' % (code(o.name), code(o.symbol), o.atomic_number, n, d, o.mass_number,
+                                                drv.id.get(id(o.element), 'E?%d' % code(o.element.name)), code(o.element.name))
+            ctx.traces += 1
+            if outs[drv.n_el + j] != want:
+                bad.append(('I%d' % j, o.name, outs[drv.n_el + j], want))
+        for line, real, nm in ((outs[-2], E._element_index, 'element'), (outs[-1], E._isotope_index, 'isotope')):
+            model = {}
+            for tok in line.split():          # newest first: the first occurrence of a key is its final binding
+                k, v = tok.split(':')
+                model.setdefault(T.decode(k), v)
+            want = {k: drv.id.get(id(v), '?' + getattr(v, 'name', '?')) for k, v in real.items()}
+            ctx.traces += len(want)
+            ctx.count('index-keys-' + nm, len(want))
+            for k in sorted(set(model) | set(want)):
+                ctx.case(key=('index', nm, k))
+                if model.get(k) != want.get(k):
+                    bad.append(('_%s_index[%r]' % (nm, k), '', model.get(k), want.get(k)))
+        if bad:
+            ctx.disagreements += len(bad)
+            ctx.broke('correspondence', 'generated table / modelled index vs imported module', bad[:10])
+    drv.add(lines, _done)
 
 
 def k_strings(ctx, drv):
@@ -251,15 +268,17 @@ def k_strings(ctx, drv):
     lines += ['enc %s' % s for s in strs if ' ' not in s and s]
     want = [str(code(s.lower())) for s in strs] + [str(code(str(n))) for n in ints] + [str(code(a + b)) for a, b in pairs]
     want += [str(code(s)) for s in strs if ' ' not in s and s]
-    outs = drv.run(lines)
-    bad = [(l, o, w) for l, o, w in zip(lines, outs, want) if o != w]
-    ctx.traces += len(lines)
-    ctx.count('string-function-cases', len(lines))
-    for l in lines:
-        ctx.case(key=('str', l))
-    if bad:
-        ctx.disagreements += len(bad)
-        ctx.broke('correspondence', 'string codes: lower / str(int) / + / enc', bad[:8])
+
+    def _done(outs):
+        bad = [(l, o, w) for l, o, w in zip(lines, outs, want) if o != w]
+        ctx.traces += len(lines)
+        ctx.count('string-function-cases', len(lines))
+        for l in lines:
+            ctx.case(key=('str', l))
+        if bad:
+            ctx.disagreements += len(bad)
+            ctx.broke('correspondence', 'string codes: lower / str(int) / + / enc', bad[:8])
+    drv.add(lines, _done)
 
 
 # -------------------------------------------------------------------------------------------------------------------
@@ -396,13 +415,15 @@ def k_lookups(ctx, drv, E, queries):
         ctx.count('K:result:' + ('found' if st == 'ok' else st))
         if want is None:
             ctx.case(key=(f, v if isinstance(v, (str, int)) else ('obj', v.name), n))
-    outs = drv.run(lines)
-    ctx.traces += len(lines)
-    bad = [(l, o, r) for l, o, r in zip(lines, outs, real) if o != r]
-    if bad:
-        ctx.disagreements += len(bad)
-        ctx.broke('correspondence', 'lookup_element / lookup_isotope: model vs implementation',
-                  [dict(line=l, query=_describe(l), model=o, implementation=r) for l, o, r in bad[:10]])
+
+    def _done(outs):
+        ctx.traces += len(lines)
+        bad = [(l, o, r) for l, o, r in zip(lines, outs, real) if o != r]
+        if bad:
+            ctx.disagreements += len(bad)
+            ctx.broke('correspondence', 'lookup_element / lookup_isotope: model vs implementation',
+                      [dict(line=l, query=_describe(l), model=o, implementation=r) for l, o, r in bad[:10]])
+    drv.add(lines, _done)
 
 
 def _describe(line):
@@ -435,29 +456,32 @@ ALT_NAMES = {13: 'aluminum', 16: 'sulphur', 55: 'cesium'}
 
 
 def s_periodic(ctx, fail, drv, els):
-    """reference = the hand-written Lean table, served by the driver"""
-    if drv is None:
-        try:
-            outs = lean.run_driver('C19', ['periodic %d' % z for z in range(0, 121)])
-        except Exception as e:  # noqa
-            ctx.broke('correspondence', 'periodic table reference unavailable', str(e)[-500:])
-            return
+    """reference = the hand-written Lean table (Model/Periodic.lean), served by the driver"""
+    lines = ['periodic %d' % z for z in range(0, 121)]
+
+    def _done(outs):
+        ref = {}
+        for z, o in enumerate(outs):
+            if o != 'none':
+                s, n = o.split()
+                ref[z] = (T.decode(s), T.decode(n))
+        if len(ref) != 118 or ref.get(26) != ('Fe', 'iron') or 0 in ref or 119 in ref:
+            raise RuntimeError('periodic reference table is damaged')
+        for e in els:
+            ctx.case(key=('periodic', e.name))
+            r = ref.get(e.atomic_number)
+            ok = r is not None and r[0] == e.symbol and e.name.lower() in (r[1], ALT_NAMES.get(e.atomic_number))
+            if not ok:
+                fail('C19:periodic:%s' % e.name, 'element %r has symbol %r and atomic number %d; the periodic table has %r for that number'
+                     % (e.name, e.symbol, e.atomic_number, r), dict(element=e.name, symbol=e.symbol, atomic_number=e.atomic_number, reference=r))
+    if drv is not None:
+        drv.add(lines, _done)
     else:
-        outs = drv.run(['periodic %d' % z for z in range(0, 121)])
-    ref = {}
-    for z, o in enumerate(outs):
-        if o != 'none':
-            s, n = o.split()
-            ref[z] = (T.decode(s), T.decode(n))
-    if len(ref) != 118 or ref.get(26) != ('Fe', 'iron') or 0 in ref or 119 in ref:
-        raise RuntimeError('periodic reference table is damaged')
-    for e in els:
-        ctx.case(key=('periodic', e.name))
-        r = ref.get(e.atomic_number)
-        ok = r is not None and r[0] == e.symbol and e.name.lower() in (r[1], ALT_NAMES.get(e.atomic_number))
-        if not ok:
-            fail('C19:periodic:%s' % e.name, 'element %r has symbol %r and atomic number %d; the periodic table has %r for that number'
-                 % (e.name, e.symbol, e.atomic_number, r), dict(element=e.name, symbol=e.symbol, atomic_number=e.atomic_number, reference=r))
+        # the generated table could not be used; the reference table is independent of it, the last built driver serves it
+        try:
+            _done(lean.run_driver('C19', lines))
+        except Exception as e:  # noqa
+            ctx.broke('correspondence', 'periodic table reference unavailable (driver does not build)', str(e)[-500:])
 
 
 def s_isotopes(ctx, fail, E, els, isos):
@@ -560,24 +584,27 @@ def k_eq_rows(ctx, drv, species):
     ids = [drv.id[id(o)] for o in species]
     order = ['E%d' % i for i in range(drv.n_el)] + ['I%d' % j for j in range(drv.n_iso)]   # the driver's allSpecies order
     objs = [drv.obj[t] for t in order]
-    outs = drv.run(['row %d' % k for k in range(len(order))])
-    hs = [hash(o) for o in objs]
-    bad = []
-    for k, x in enumerate(objs):
-        eq = ''.join('1' if x == y else '0' for y in objs)
-        ne = ''.join('1' if x != y else '0' for y in objs)
-        he = ''.join('1' if hs[k] == h else '0' for h in hs)
-        if outs[k] != '%s %s %s' % (eq, ne, he):
-            m = outs[k].split()
-            for nm, a, b in (('==', m[0], eq), ('!=', m[1], ne), ('hash==', m[2], he)):
-                for j, (ca, cb) in enumerate(zip(a, b)):
-                    if ca != cb:
-                        bad.append((x.name, nm, objs[j].name, 'model ' + ca, 'implementation ' + cb))
-    ctx.traces += 3 * n * n
-    ctx.count('K:eq-ne-hash-ordered-pairs', n * n)
-    if bad:
-        ctx.disagreements += len(bad)
-        ctx.broke('correspondence', '== / != / hash on exported species: model vs implementation', bad[:10])
+    lines = ['row %d' % k for k in range(len(order))]
+
+    def _done(outs):
+        hs = [hash(o) for o in objs]
+        bad = []
+        for k, x in enumerate(objs):
+            eq = ''.join('1' if x == y else '0' for y in objs)
+            ne = ''.join('1' if x != y else '0' for y in objs)
+            he = ''.join('1' if hs[k] == h else '0' for h in hs)
+            if outs[k] != '%s %s %s' % (eq, ne, he):
+                m = outs[k].split()
+                for nm, a, b in (('==', m[0], eq), ('!=', m[1], ne), ('hash==', m[2], he)):
+                    for j, (ca, cb) in enumerate(zip(a, b)):
+                        if ca != cb:
+                            bad.append((x.name, nm, objs[j].name, 'model ' + ca, 'implementation ' + cb))
+        ctx.traces += 3 * n * n
+        ctx.count('K:eq-ne-hash-ordered-pairs', n * n)
+        if bad:
+            ctx.disagreements += len(bad)
+            ctx.broke('correspondence', '== / != / hash on exported species: model vs implementation', bad[:10])
+    drv.add(lines, _done)
 
 
 def k_constructed(ctx, drv, E, Line, els, isos):
@@ -641,18 +668,20 @@ def k_constructed(ctx, drv, E, Line, els, isos):
         st, _ = call(Line, a, c, (3, 2))
         lines.append('linector %s %d' % (drv.spec(a), c))
         real.append('1' if st == 'ok' else '0')
-    outs = drv.run(lines)
-    ctx.traces += len(lines)
-    ctx.count('K:constructed-species-pairs', len(pairs))
-    ctx.count('K:line-pairs', len(lpairs))
-    for l in lines:
-        ctx.case(key=('cmp', l))
-    bad = [(l, 'model ' + o, 'implementation ' + r) for l, o, r in zip(lines, outs, real) if o != r]
-    for l, o, r in zip(lines, outs, real):
-        ctx.count('K:cmp-outcome:' + r)
-    if bad:
-        ctx.disagreements += len(bad)
-        ctx.broke('correspondence', '== / != / hash on constructed species and lines (eq ne hash-eq bits): model vs implementation', bad[:10])
+
+    def _done(outs):
+        ctx.traces += len(lines)
+        ctx.count('K:constructed-species-pairs', len(pairs))
+        ctx.count('K:line-pairs', len(lpairs))
+        for l in lines:
+            ctx.case(key=('cmp', l))
+        bad = [(l, 'model ' + o, 'implementation ' + r) for l, o, r in zip(lines, outs, real) if o != r]
+        for l, o, r in zip(lines, outs, real):
+            ctx.count('K:cmp-outcome:' + r)
+        if bad:
+            ctx.disagreements += len(bad)
+            ctx.broke('correspondence', '== / != / hash on constructed species and lines (eq ne hash-eq bits): model vs implementation', bad[:10])
+    drv.add(lines, _done)
 
 
 # -------------------------------------------------------------------------------------------------------------------
